@@ -225,7 +225,7 @@ func c09R4(p *core.Prog, r *core.Report) {
 						if !ok || mc.Fn != f {
 							continue
 						}
-						for _, fs := range fieldStores([]*ssa.Function{par}, func(nn *types.Named, fld string) bool { return nn.Obj().Name() == "tarReadData" }) {
+						for _, fs := range fieldStores([]*ssa.Function{par}, func(nn *types.Named, fld string) bool { return core.TypeCanon(nn) == "tarReadData" }) {
 							if flowsInto(mc, fs.Store.Val) {
 								appended = true
 							}
